@@ -56,9 +56,11 @@ func (s *Shard) setMode(m mode.Mode) error {
 
 	for i := range components {
 		if err := components[i](m); err != nil {
+			s.modeSwitchFailed = true
 			return err
 		}
 	}
+	s.modeSwitchFailed = false
 
 	s.info.Mode = m
 	if s.metricsWriter != nil {
@@ -79,7 +81,8 @@ func (s *Shard) GetMode() mode.Mode {
 }
 
 func (s *Shard) setModeStorage(m mode.Mode) error {
-	if s.info.Mode == m {
+	// after a failed switch storage may be in a mode different from the shard's one
+	if s.info.Mode == m && !s.modeSwitchFailed {
 		return nil
 	}
 
